@@ -100,6 +100,13 @@ def dynamic_jobs(tier, seed, prop):
         jobs.append(rnd(("bench_gen", "medium-gen", seed % 50), 500, seed + 2, modes=ALL_MODES[:4]))
         for src in layout_gen_sources(seed + 50, 3):
             jobs.append(rnd(src, 300, seed + 6, modes=ALL_MODES))
+        # environments obtained through gymnasium.make(<registered id>)
+        ids = ["Tiny-v0", "TinyPO-v0", "TinySmall2D-v0", "SmallPOVA-v0", "TinyHardPO2DVA-v0", "MediumMultiSite2DVA-v0"]
+        if not quick:
+            ids = ["%s%s%s%s-v0" % ("".join(g.capitalize() for g in n.split("-")), po, d2, va)
+                   for n in corpus.YAML_BENCHMARKS for po in ("", "PO") for d2 in ("", "2D") for va in ("", "VA")]
+        for i, env_id in enumerate(ids):
+            jobs.append(rnd(("gym", env_id), 200 if quick else 400, seed + 40 + i, decoy=False))
     elif prop == "C11":
         for n in corpus.names():
             jobs.append(exh(("corpus_dict", n)))
